@@ -187,6 +187,25 @@ def valid_history(rng, kind, ncalls=30, small=False, allow=("ratio", "ramp", "ch
     return ops
 
 
+def huge_history(rng, kind):
+    """chunk sizes beyond 2^16 (size computations that truncate, wrap or lose precision only there);
+    few calls, so that the stream stays below 2^20 frames"""
+    chunk = rng.choice([65536, 65537, 70000, 131072])
+    ncalls = 3 if chunk > 100000 else 5
+    if kind in ASYNC:
+        r = rng.choice([Fraction(1), Fraction(3, 2), Fraction(2, 3), Fraction(160, 147), Fraction(147, 160)])
+        over = {"chunk": chunk, "r": rj(r), "maxrel": rj(rng.choice([Fraction(1), Fraction(11, 10), Fraction(2)])),
+                "ch": rng.choice([1, 2])}
+        if kind.startswith("Sinc"):
+            over.update({"L": rng.choice([8, 16, 64]), "F": rng.choice([2, 16, 128])})
+        allow = ("ratio", "ramp", "chunk", "via")
+    else:
+        a, b = rng.choice([(1, 2), (2, 1), (3, 2), (2, 3), (147, 160), (160, 147), (1, 1), (44100, 48000)])
+        over = {"chunk": chunk, "fs_in": a, "fs_out": b, "sub": rng.choice([1, 2, 4]), "ch": rng.choice([1, 2])}
+        allow = ("via",)
+    return valid_history(rng, kind, ncalls, allow=allow, **over)
+
+
 BAD_SHAPES = [
     {"in_ch": -1}, {"in_ch": 1}, {"out_ch": -1}, {"out_ch": 1}, {"mask_len": -1}, {"mask_len": 1},
     {"in_ch": -100}, {"out_ch": -100}, {"mask_len": -100},
